@@ -209,7 +209,7 @@ def _call(mon, case, which, ref, hyp, **over):
     zero_dim = (case["R"] == 0 or case["H"] == 0) and case["eos"] is not None
     zero_dim = zero_dim or (case["H"] == 0 and which == "prefix_error_rates" and case["exclude_last"])
     documented = (RuntimeError, IndexError) if zero_dim else ()
-    with warnings.catch_warnings():
+    with warnings.catch_warnings(), G.process_mode(case):
         warnings.simplefilter("ignore")
         if case["form"] == "module":
             mon.stat("form_module")
@@ -350,7 +350,7 @@ def _call_loss(mon, case, lp, ref, hyp):
     kw = dict(eos=case["eos"], include_eos=case["include_eos"], sub_avg=case["sub_avg"],
               batch_first=case["batch_first"], norm=case["norm"], ins_cost=ins, del_cost=dl,
               sub_cost=sub, reduction=case["reduction"])
-    with warnings.catch_warnings():
+    with warnings.catch_warnings(), G.process_mode(case):
         warnings.simplefilter("ignore")
         if case["form"] == "module":
             mon.stat("form_module")
